@@ -75,6 +75,33 @@ fn cmd_fw(args: &[String]) {
                 continue;
             }
         }
+        if prop == "C10" {
+            let (comb, solo, pos) = props::gen_c10_pair(&mut r);
+            let (rc, rs) = (fw::run_case(&comb), fw::run_case(&solo));
+            for (k, (c, run)) in [(&comb, &rc), (&solo, &rs)].iter().enumerate() {
+                let toks = fw::enc_case(c, &run.tape);
+                writeln!(cases, "{}", enc::hex_line(None, &toks)).unwrap();
+                for l in &run.lines {
+                    writeln!(implo, "{}", enc::hex_line(Some(2 * i + k), l)).unwrap();
+                }
+            }
+            calls += comb.calls.len();
+            actions += rc.calls.iter().map(|c| c.actions.len()).sum::<usize>();
+            if rs.calls.iter().any(|c| !c.actions.is_empty()) {
+                if nontrivial.len() < 3 {
+                    writeln!(meta, "sample position={} combined: {} || solo: {}", pos, describe_case(2 * i, &comb, &rc), describe_case(2 * i + 1, &solo, &rs)).unwrap();
+                }
+                nontrivial.insert(fw::enc_case(&comb, &rc.tape));
+            }
+            if only.is_some() {
+                writeln!(meta, "replay position={} combined: {} || solo: {}", pos, describe_case(2 * i, &comb, &rc), describe_case(2 * i + 1, &solo, &rs)).unwrap();
+            }
+            if let Some(v) = props::mon_c10(&rc, &rs, pos) {
+                violations += 1;
+                writeln!(meta, "violation case={} {}", i, v).unwrap();
+            }
+            continue;
+        }
         let c = props::gen_case(&prop, &mut r);
         let run = fw::run_case(&c);
         if only.is_some() {
